@@ -46,7 +46,7 @@ theorem string_int (ext : Ext) (t : IntTy) (v : Int) (hv : t.inRange v) :
   · obtain ⟨⟨s, hs1, hs2⟩, _⟩ := C12.int_text_reads_back ext t v hv
     rw [C12.toString_int ext t v hv] at hs1
     cases hs1
-    simp only [importCell, importFrom, importFail_ok _ _ hs2]
+    simp only [importCell, importByFormat, importFrom, importFail_ok _ _ hs2]
 
 /-- numeric(INT): written as the number literal, read back exactly. -/
 theorem numeric_int (ext : Ext) (t : IntTy) (v : Int) (hv : t.inRange v) :
@@ -59,7 +59,7 @@ theorem numeric_int (ext : Ext) (t : IntTy) (v : Int) (hv : t.inRange v) :
   · obtain ⟨_, ⟨s, hs1, hs2⟩⟩ := C12.int_text_reads_back ext t v hv
     rw [C12.toNumber_int ext t v hv] at hs1
     cases hs1
-    simp only [importCell, importFrom, importFail_ok _ _ hs2]
+    simp only [importCell, importByFormat, importFrom, importFail_ok _ _ hs2]
 
 /-- binary(INT): written as the base64 of the little-endian image, read back exactly. -/
 theorem binary_int (ext : Ext) (t : IntTy) (v : Int) (hv : t.inRange v) :
@@ -74,7 +74,7 @@ theorem binary_int (ext : Ext) (t : IntTy) (v : Int) (hv : t.inRange v) :
       intro s
       simp [castNamed, callNamed, genTables, Gen.casters, findClause, typeOf, evalBranch, evalE]
     have hdec := C11.decode_encode_int ext t v hv
-    simp only [importCell, importFromBinary, importFail_ok _ _ (hts _), Base64.decode_encode]
+    simp only [importCell, importByFormat, importFromBinary, importFail_ok _ _ (hts _), Base64.decode_encode]
     cases t <;> simp only [importFail_ok _ _ hdec]
 
 /-- boolean(bool) and string(bool). -/
@@ -91,8 +91,8 @@ theorem bool_columns (ext : Ext) (b : Bool) :
   obtain ⟨h3, h4⟩ := C12.bool_text ext b
   refine ⟨?_, ?_, ?_, ?_⟩
   · simp only [exportVal, exportFail_ok _ _ h1]
-  · simp only [importCell, importFrom, importFail_ok _ _ h2]
+  · simp only [importCell, importByFormat, importFrom, importFail_ok _ _ h2]
   · simp only [exportVal, exportFail_ok _ _ h3]
-  · simp only [importCell, importFrom, importFail_ok _ _ h4]
+  · simp only [importCell, importByFormat, importFrom, importFail_ok _ _ h4]
 
 end Jl.C13
